@@ -66,9 +66,10 @@ vars == <<proc, input, doc, pc, todoA, todoC, sigs, serialized, disk, status, fa
 
 (* a repodata document: which artifacts exist, their metadata identity, what the signatures section held *)
 Docs == [pk : SUBSET Arts, cd : SUBSET Conda \cup {{"nosection"}}, meta : [Arts \cup Conda -> Metas],
-         pre : {"absent", "empty", "stale_gone", "stale_present", "stale_own_key", "junk"}, extra : BOOLEAN]
+         pre : {"absent", "empty", "stale_gone", "stale_present", "stale_own_key", "current_own_key", "junk"}, extra : BOOLEAN]
   \* stale_own_key: well-formed entries under the SIGNER's own public key for artifacts that are still listed, made over
-  \* older metadata (the file was signed before and its metadata patched since)
+  \* older metadata (the file was signed before and its metadata patched since); current_own_key: the section already
+  \* holds exactly what this key would produce, but the file was re-emitted by another tool in a non-canonical layout
 CdNames(d) == IF d.cd = {"nosection"} THEN {} ELSE d.cd
 Names(d) == d.pk \cup CdNames(d)
 NoSig == "none"
